@@ -193,14 +193,48 @@ def check(an: Analysis) -> None:
     def prefix_parts(e: ast.AST) -> set[str]:
         return {dotted(n) or "" for n in ast.walk(e) if isinstance(n, (ast.Attribute, ast.Name))}
 
+    from ..kinds import Scenario
+
+    gi_ = an.cfg(init)
+
     def ev_prefix(named: bool) -> set[str] | None:
-        e = pv[0]
-        while isinstance(e, ast.IfExp):
-            t = eval_expr(e.test, lambda x: ("name" if named else "") if is_name(x, "scope") else NOVALUE)
-            if t is NOVALUE:
-                return None
-            e = e.body if t else e.orelse
-        return prefix_parts(e)
+        def base(x: ast.AST):
+            if is_name(x, "scope"):
+                return "name" if named else ""
+            return NOVALUE
+
+        sc = Scenario(gi_, di, base)
+        exprs: list[ast.AST] = [pv[0]]
+        for _ in range(4):
+            nxt: list[ast.AST] = []
+            changed = False
+            for e in exprs:
+                e = unwrap(e)
+                if isinstance(e, ast.IfExp):
+                    t = eval_expr(e.test, sc.env)
+                    if t is NOVALUE:
+                        return None
+                    nxt.append(e.body if t else e.orelse)
+                    changed = True
+                elif isinstance(e, ast.Name) and di.owner(e.id) is not None and sc.values_of(e.id):
+                    nxt.extend(sc.values_of(e.id))
+                    changed = True
+                else:
+                    nxt.append(e)
+            exprs = nxt
+            if not changed:
+                break
+        parts: set[str] = set()
+        for e in exprs:
+            parts |= {x for x in prefix_parts(e)}
+            # names inside an inlined helper are substituted parameters: keep their origins too
+            for n in ast.walk(e):
+                if isinstance(n, ast.Name):
+                    oo = di.origins(n)
+                    if "param:scope" in oo:
+                        parts.add("scope")
+                    parts |= {o[5:] for o in oo if o.startswith("attr:")}
+        return parts
 
     for named in (True, False):
         parts = ev_prefix(named)
@@ -235,21 +269,35 @@ def check(an: Analysis) -> None:
         if not ("attr:self._logger_prefix" in dd and f"param:{lp[2]}" in dd):
             ob.fail(slog, c, "the emitted text does not contain both the scope prefix and the message")
         elif isinstance(fmt, ast.JoinedStr):
-            order = [("prefix" if "_logger_prefix" in ast.unparse(v) else "message" if lp[2] in ast.unparse(v) else "") for v in fmt.values if isinstance(v, ast.FormattedValue)]
+            order = []
+            for v in fmt.values:
+                if isinstance(v, ast.FormattedValue):
+                    dv = dl.of(v.value)
+                    order.append("prefix" if "attr:self._logger_prefix" in dv else ("message" if f"param:{lp[2]}" in dv else ""))
             order = [o for o in order if o]
             if order[:1] != ["prefix"] or "message" not in order:
                 ob.fail(slog, c, "the message is not prefixed by the scope tag")
 
     # ------------------------------------------------------------------ C19.6 formatting characters in the tag
     ob = an.ob("C19.6", "taint K5+K10", "scope name / trace id (untrusted text) never reach the %-format string of Logger.log unescaped when format arguments are passed (API_FACT 9)", [f"{SM}.log"])
+    gl_ = an.cfg(slog)
+    argsname = slog.node.args.vararg.arg
+
+    def base_args(x: ast.AST):
+        if is_name(x, argsname):
+            return ["arg"]
+        return NOVALUE
+
+    sc_args = Scenario(gl_, dl, base_args)
     for c in emits:
         ob.inst(slog, c)
-        if len(c.args) > 1 and _tainted(dl, c.args[1], slog.node.args.vararg.arg):
+        if len(c.args) > 1 and _tainted(dl, c.args[1], argsname, sc_args):
             ob.fail(slog, c, "a `%` in the scope name or trace id corrupts %-formatting when the message has arguments: the line is lost (e.g. scope '100%s done', ctx.log_info('x %s', 'y'))")
 
 
-def _tainted(d: Deps, e: ast.AST, args_name: str, depth: int = 6) -> bool:
-    """Can the raw prefix reach this (format-position) expression when *args is non-empty?"""
+def _tainted(d: Deps, e: ast.AST, args_name: str, sc, depth: int = 6) -> bool:
+    """Can the raw prefix reach this (format-position) expression when *args is non-empty?
+    `sc` is the Scenario 'args is non-empty' of ScopeMetrics.log (selects the reachable definitions of locals)."""
     e = unwrap(e)
     if depth < 0 or e is None:
         return True
@@ -260,16 +308,16 @@ def _tainted(d: Deps, e: ast.AST, args_name: str, depth: int = 6) -> bool:
         if isinstance(a, ast.Constant) and a.value == "%" and isinstance(b, ast.Constant) and b.value == "%%":
             return False
     if isinstance(e, ast.IfExp):
-        t = eval_expr(e.test, lambda x: ["arg"] if is_name(x, args_name) else NOVALUE)
+        t = eval_expr(e.test, sc.env)
         if t is NOVALUE:
-            return _tainted(d, e.body, args_name, depth - 1) or _tainted(d, e.orelse, args_name, depth - 1)
-        return _tainted(d, e.body if t else e.orelse, args_name, depth - 1)
+            return _tainted(d, e.body, args_name, sc, depth - 1) or _tainted(d, e.orelse, args_name, sc, depth - 1)
+        return _tainted(d, e.body if t else e.orelse, args_name, sc, depth - 1)
     if isinstance(e, ast.Name):
-        sv = d.single_value(e.id)
-        if sv is not None:
-            return _tainted(d, sv, args_name, depth - 1)
-        vals = [n for k, n in d.defs(d.owner(e.id), e.id) if k == "value"] if d.owner(e.id) else []
-        return any(_tainted(d, v, args_name, depth - 1) for v in vals)
+        vals = sc.values_of(e.id)
+        if not vals:
+            sv = d.single_value(e.id)
+            vals = [sv] if sv is not None else []
+        return any(_tainted(d, v, args_name, sc, depth - 1) for v in vals)
     if isinstance(e, (ast.JoinedStr, ast.BinOp, ast.FormattedValue, ast.Call, ast.BoolOp)):
-        return any(_tainted(d, ch, args_name, depth - 1) for ch in ast.iter_child_nodes(e) if isinstance(ch, ast.expr))
+        return any(_tainted(d, ch, args_name, sc, depth - 1) for ch in ast.iter_child_nodes(e) if isinstance(ch, ast.expr))
     return False
